@@ -246,10 +246,12 @@ func runC12(c *Ctx) {
 	storPkg := repoPath("storage/storagei")
 	ng := 0
 	if wf != nil && allow != nil {
-		for _, g := range c.funcsCalling(func(call ssa.CallInstruction) bool { return invokeIs(call, storPkg, "Client", "Exists") }) {
-			if load.RelPkg(g) != "sign/gcsca" || len(callsIn(g, func(call ssa.CallInstruction) bool { return call.Common().StaticCallee() == wf })) == 0 {
-				continue
-			}
+		gateList := []*ssa.Function{}
+		for g := range c.gcscaGates() {
+			gateList = append(gateList, g)
+		}
+		sort.Slice(gateList, func(i, j int) bool { return gateList[i].Pos() < gateList[j].Pos() })
+		for _, g := range gateList {
 			ng++
 			name := load.FuncName(g)
 			const (
@@ -279,7 +281,7 @@ func runC12(c *Ctx) {
 					return []esp.Ev{{ID: 0, Name: "Storage.Exists", ErrIdx: -1, BoolIdx: 0}}
 				case call.Common().StaticCallee() == allow:
 					return []esp.Ev{{ID: 1, Name: "AllowOverwrite", ErrIdx: -1, BoolIdx: 0}}
-				case call.Common().StaticCallee() == wf:
+				case c.gcscaIsWrite(call):
 					return []esp.Ev{{ID: 2, Name: "object write", ErrIdx: -1, BoolIdx: -1}}
 				case keepGoing != nil && call.Common().StaticCallee() == keepGoing:
 					return []esp.Ev{{ID: 3, Name: "AllowRecoverableError", ErrIdx: -1, BoolIdx: 0}}
@@ -348,14 +350,12 @@ func runC12(c *Ctx) {
 			if load.RelPkg(f) != "sign/gcsca" || c.isTestFunc(f) {
 				continue
 			}
-			inGate := len(callsIn(f, func(call ssa.CallInstruction) bool { return invokeIs(call, storPkg, "Client", "Exists") })) > 0
-			for _, call := range callsIn(f, func(call ssa.CallInstruction) bool {
-				return call.Common().StaticCallee() == wf || invokeIs(call, storPkg, "Client", "Writer")
-			}) {
+			inGate := c.gcscaGates()[f]
+			for _, call := range callsIn(f, c.gcscaIsWrite) {
 				nW++
 				isManifest := false
-				if call.Common().StaticCallee() == wf && len(call.Common().Args) >= 4 {
-					if k, ok := call.Common().Args[3].(*ssa.Const); ok && k.Value != nil && k.Value.Kind() == constant.String && manifestName != "" && constant.StringVal(k.Value) == manifestName {
+				if name, ok := c.gcscaWriteName(call); ok {
+					if k, ok := name.(*ssa.Const); ok && k.Value != nil && k.Value.Kind() == constant.String && manifestName != "" && constant.StringVal(k.Value) == manifestName {
 						isManifest = true
 					}
 				}
